@@ -461,7 +461,9 @@ Definition enabled (x : xstate) : list (list N) :=
   flat_map (fun f =>
      let y := gets s f in
      if s_alive y then
-       (if s_hp y then [encode (PollSend f (64 + 2 * f)); encode (PollSend f (65 + 2 * f)); encode (CancelSend f)] else [])
+       (* cancel() is also offered on a completed send future (it returns None and changes nothing) *)
+       (if s_hp y then [encode (PollSend f (64 + 2 * f)); encode (PollSend f (65 + 2 * f)); encode (CancelSend f)]
+        else [encode (CancelSend f)])
        ++ [encode (DropSend f)]
      else if Nat.ltb 0 (senders s) then [encode (CreateSend f v)] else []) (seq 0 (length (sfs s)))
   ++ flat_map (fun f =>
